@@ -17,10 +17,11 @@ type LayoutVariant struct {
 	MdatFirst bool // mdat directly after ftyp, before moov
 	MdatLast  bool // mdat moved to the very end
 	FreePad   int  // size of a free box put right before mdat (0 = none; >=8)
+	EmptyMdat int  // extra EMPTY mdat box (legal): 0 none, 1 directly after the real one, 2 directly before it, 3 at the very end
 }
 
 func (v LayoutVariant) String() string {
-	return fmt.Sprintf("large=%v mdatFirst=%v mdatLast=%v free=%d", v.LargeMdat, v.MdatFirst, v.MdatLast, v.FreePad)
+	return fmt.Sprintf("large=%v mdatFirst=%v mdatLast=%v free=%d emptyMdat=%d", v.LargeMdat, v.MdatFirst, v.MdatLast, v.FreePad, v.EmptyMdat)
 }
 
 // ApplyLayout returns the rewritten file.
@@ -95,9 +96,16 @@ func ApplyLayout(data []byte, v LayoutVariant) ([]byte, error) {
 			copy(fb[4:], "free")
 			out = append(out, fb...)
 		}
+		empty := []byte{0, 0, 0, 8, 'm', 'd', 'a', 't'}
+		if v.EmptyMdat == 2 {
+			out = append(out, empty...)
+		}
 		out = append(out, hdr...)
 		newPayloadStart = int64(len(out))
 		out = append(out, payload...)
+		if v.EmptyMdat == 1 {
+			out = append(out, empty...)
+		}
 	}
 	for i, b := range order {
 		if i == insertAt {
@@ -110,6 +118,9 @@ func ApplyLayout(data []byte, v LayoutVariant) ([]byte, error) {
 	}
 	if insertAt == len(order) {
 		emitMdat()
+	}
+	if v.EmptyMdat == 3 {
+		out = append(out, 0, 0, 0, 8, 'm', 'd', 'a', 't')
 	}
 	delta := newPayloadStart - mdat.Payload()
 	// patch chunk offsets inside the copied moov
